@@ -14,7 +14,7 @@ Proof. exact SchedLaws.once_at_most_once. Qed.
 
 (* nothing runs before schedule time + delay, however the executor polls *)
 Theorem C19_never_before_delay :
-  forall cont ls now b d, runs_from (now + d) (trun cont now (spawn now b (Some d)) ls) = true.
+  forall cont ls now b d, runs_from (now + d) (trun cont now (spawn b (Some d)) ls) = true.
 Proof. exact SchedLaws.never_before_delay. Qed.
 
 (* a repeating task ticks with consecutive sequence numbers, the first at least one period after it
@@ -22,7 +22,7 @@ Proof. exact SchedLaws.never_before_delay. Qed.
    its function declined *)
 Theorem C19_repeat_ticks :
   forall cont ls now j p delay,
-    ticks_ok cont p 0 (now + p) (trun cont now (spawn now (BRepeat j p 0 0) delay) ls) = true.
+    ticks_ok cont p 0 (now + p) (trun cont now (spawn (repeat_new now j p) delay) ls) = true.
 Proof. exact SchedLaws.repeat_from_spawn. Qed.
 
 (* after unsubscribe() on the handle, or once the handle has reported closed, the function never runs *)
@@ -31,9 +31,9 @@ Theorem C19_quiet_after_cancel_or_closed :
 Proof. exact SchedLaws.quiet_after_cancel_or_closed. Qed.
 
 Check C19_once_at_most_once : forall cont j ls now t, t_body t = BOnce j -> (ran_count (trun cont now t ls) <= 1)%nat.
-Check C19_never_before_delay : forall cont ls now b d, runs_from (now + d) (trun cont now (spawn now b (Some d)) ls) = true.
+Check C19_never_before_delay : forall cont ls now b d, runs_from (now + d) (trun cont now (spawn b (Some d)) ls) = true.
 Check C19_repeat_ticks : forall cont ls now j p delay,
-    ticks_ok cont p 0 (now + p) (trun cont now (spawn now (BRepeat j p 0 0) delay) ls) = true.
+    ticks_ok cont p 0 (now + p) (trun cont now (spawn (repeat_new now j p) delay) ls) = true.
 Check C19_quiet_after_cancel_or_closed : forall cont ls now t, SchedLaws.value_inv t -> quiet_after_cancel (trun cont now t ls) = true.
 
 Print Assumptions C19_once_at_most_once.
@@ -42,11 +42,11 @@ Print Assumptions C19_repeat_ticks.
 Print Assumptions C19_quiet_after_cancel_or_closed.
 
 (* the premise of the last theorem holds for every freshly scheduled task *)
-Example C19_spawn_value_inv : forall now b d, SchedLaws.value_inv (spawn now b d).
-Proof. intros now b d H. discriminate. Qed.
+Example C19_spawn_value_inv : forall b d, SchedLaws.value_inv (spawn b d).
+Proof. intros b d H. discriminate. Qed.
 
 Example C19_example :
-  trun (fun seq => Nat.ltb seq 2) 0 (spawn 0 (BRepeat 0 3 0 0) (Some 5))
+  trun (fun seq => Nat.ltb seq 2) 0 (spawn (repeat_new 0 0 3) (Some 5))
        [TPoll 0; TPoll 3; TPoll 2; TPoll 1; TPoll 3; TClosed 0; TPoll 5; TClosed 0; TPoll 9]
   = [ORan 0 5; ORan 1 9; OClosed false 9; ORan 2 14; OClosed true 14].
 Proof. vm_compute. reflexivity. Qed.
